@@ -232,14 +232,6 @@ sqfs_dir_iterator_t *dir_tree_iterator_create(const char *path,
 	if (ret)
 		goto fail_oom;
 
-	if (!(cfg->flags & DIR_SCAN_NO_HARDLINKS)) {
-		ret = sqfs_hard_link_filter_create(&dir, it->rec);
-		sqfs_drop(it->rec);
-		it->rec = dir;
-		if (ret)
-			goto fail_oom;
-	}
-
 	sqfs_object_init(it, destroy, NULL);
 	((sqfs_dir_iterator_t *)it)->next = next;
 	((sqfs_dir_iterator_t *)it)->read_link = read_link;
